@@ -165,6 +165,7 @@ OBSERVERS = '''
 <o9><xsl:value-of select="//*[not(text())][1]/@none"/>|<xsl:value-of select="count(//*[text()=' '])"/>|<xsl:value-of select="count(//*[.=' '])"/>|<xsl:value-of select="count(//*[node()])"/>|<xsl:value-of select="string(//a[1]/node()[2])"/></o9>
 <o10><xsl:apply-templates select="//*" mode="pos"/></o10>
 <o11><xsl:for-each select="//*"><xsl:sort select="count(node())" data-type="number"/><xsl:sort select="string(.)"/><s n="{name()}" c="{count(node())}"/></xsl:for-each></o11>
+<o13><xsl:value-of select="count(key('kt', //*))"/>|<xsl:value-of select="count(key('ks', //*))"/>|<xsl:for-each select="//*"><xsl:value-of select="count(key('ks', *|.))"/>,</xsl:for-each></o13>
 <o12><xsl:value-of select="sum(//*[number(.)=number(.)])"/>|<xsl:value-of select="concat('[', //b, ']')"/>|<xsl:value-of select="boolean(//a/text())"/>|<xsl:value-of select="count(//text()[normalize-space()=''])"/></o12>
 '''
 
@@ -181,7 +182,7 @@ def stylesheet(decls, with_decls, via_document=False):
     if not with_decls:
         main_decl = imp_decl = ''
     main = ('<xsl:stylesheet version="1.0" xmlns:xsl="%s" xmlns:p="u1" exclude-result-prefixes="p"><xsl:import href="imp.xsl"/>%s'
-            '<xsl:key name="kt" match="text()" use="."/><xsl:key name="kp" match="node()" use="name(..)"/>'
+            '<xsl:key name="kt" match="text()" use="."/><xsl:key name="kp" match="node()" use="name(..)"/><xsl:key name="ks" match="*" use="."/>'
             '<xsl:template match="/"><out>%s</out></xsl:template>'
             '<xsl:template match="/" mode="b"><xsl:apply-templates mode="b"/></xsl:template>'
             '<xsl:template match="*" mode="b"><xsl:element name="{local-name()}"><xsl:apply-templates mode="b"/></xsl:element></xsl:template>'
